@@ -460,6 +460,15 @@ fn punched_case(r: &mut Rng, t: &E, variant: u64) -> Case {
             both_sides = true;
         }
     }
+    // sometimes hole-free parts of either side sit behind holes that are already solved (shift
+    // 0-3): they denote the same terms, so nothing about the expected outcome changes
+    let (pattern, instance) = if r.chance(1, 3) {
+        let kp = r.usize(3);
+        let ki = r.usize(3);
+        (crate::emut::wrap_solved(&pattern, r, kp, 7000, 0), crate::emut::wrap_solved(&instance, r, ki, 7100, 0))
+    } else {
+        (pattern, instance)
+    };
     let (pattern, instance) = if r.chance(1, 2) { (pattern, instance) } else { (instance, pattern) };
     if both_sides {
         return Case { pattern, instance, holes, nctx: 0, kind: "holes-on-both-sides", ctx_defs: vec![] };
@@ -518,6 +527,14 @@ fn handmade(idx: u64) -> Option<Case> {
         // a definition that solves nothing: t = int; ?0 against t, and ?0 -> ?0 against t -> int
         28 => cd(h(0, 1), v("t", 0), vec![hi(0, 0)], vec![E::Int], "hole-against-defined-variable"),
         29 => cd(E::Pi("_".into(), false, bx(h(0, 1)), bx(h(0, 2))), E::Pi("_".into(), false, bx(v("t", 0)), bx(E::Int)), vec![hi(0, 0)], vec![E::Int], "hole-against-defined-variable"),
+        // the instance contains, under binders of its own, holes that are already solved by open
+        // terms (written 1-2 binders further out): the recorded solution must inline them at the
+        // right indices
+        30 => c(h(0, 0), E::Pi("y".into(), false, bx(E::Int), bx(E::Hole(50, 1, Some(bx(v("a", 0)))))), vec![hi(0, 0)], 1, "solved-hole-under-binder-in-instance"),
+        31 => c(h(0, 0), lam(lam(E::Hole(50, 2, Some(bx(v("a", 0)))))), vec![hi(0, 0)], 1, "solved-hole-under-binder-in-instance"),
+        32 => c(app(v("f", 1), h(0, 0)), app(v("f", 1), lam(app(E::Hole(50, 1, Some(bx(v("c", 0)))), v("x", 0)))), vec![hi(0, 0)], 2, "solved-hole-under-binder-in-instance"),
+        33 => c(lam(h(0, 1)), lam(lam(E::Hole(50, 1, Some(bx(lam(v("c", 2))))))), vec![hi(0, 0)], 1, "solved-hole-under-binder-in-instance"),
+        34 => c(E::Pi("y".into(), false, bx(E::Int), bx(E::Hole(50, 1, Some(bx(v("a", 0)))))), h(0, 0), vec![hi(0, 0)], 1, "solved-hole-under-binder-in-instance"),
         _ => None,
     }
 }
@@ -528,8 +545,8 @@ impl Prop for C12P {
     }
     fn plan(&self, tier: Tier, _seed: u64) -> Plan {
         let mut p = Plan::new(
-            vec![sec("handmade-configurations", 30), sec("punched-terms", tier.pick(40_000, 400_000)), sec("unrelated-pairs", tier.pick(8_000, 80_000))],
-            "1-4 holes (fresh or shared cells, shift 0..3 bounded by the binder depth) punched at arbitrary positions into hole-free well-typed terms from the typed generator, unified against the original, a beta-expanded and a definition-wrapped variant, in both argument orders; pairs of unrelated terms; hand-made occurs-check, scope-escape and shared-cell configurations with and without context parameters; after every successful call the cells are inspected for cycles, scope and consistency; non-trivial = distinct pair on which unify succeeded",
+            vec![sec("handmade-configurations", 35), sec("punched-terms", tier.pick(40_000, 400_000)), sec("unrelated-pairs", tier.pick(8_000, 80_000))],
+            "1-4 holes (fresh or shared cells, shift 0..3 bounded by the binder depth) punched at arbitrary positions into hole-free well-typed terms from the typed generator, unified against the original, a beta-expanded and a definition-wrapped variant, in both argument orders; pairs of unrelated terms and of a term with a structurally edited copy of itself; hole-free parts behind already solved holes; hand-made occurs-check, scope-escape and shared-cell configurations with and without context parameters; after every successful call the cells are inspected for cycles, scope and consistency; non-trivial = distinct pair on which unify succeeded",
         );
         p.assumptions = vec![
             "the statement is about success: partial solutions left by a failed unification are not judged".into(),
@@ -562,6 +579,36 @@ impl Prop for C12P {
             "unrelated-pairs" => {
                 let mut r = Rng::for_case(ctx.seed, 2, idx);
                 let (Some(a), Some(b)) = (base_term(&mut r), base_term(&mut r)) else { return };
+                if idx % 2 == 1 {
+                    // near misses: the term against a structurally edited copy of itself (a
+                    // definition dropped, duplicated or swapped, operands or branches swapped, an
+                    // operator or literal changed), with and without holes on the first side
+                    let Some((edited, _)) = crate::emut::edit(&a, &mut r) else { return };
+                    // only closed copies that the reference accepts at the same type (an edit may
+                    // leave a dangling index or an ill-typed term: not unify's business)
+                    if crate::emut::max_free(&edited, 0).is_some() {
+                        ctx.count("edit-discarded:not-closed");
+                        return;
+                    }
+                    let nbe = crate::core::Nbe::new(crate::typed::NBE_FUEL);
+                    match (crate::typed::rcore_infer(&nbe, &a), crate::typed::rcore_infer(&nbe, &edited)) {
+                        (Ok(x), Ok(y)) if matches!(nbe.conv(&x.ty, &y.ty), Ok(true)) => {}
+                        _ => {
+                            ctx.count("edit-discarded:ill-typed-or-other-type");
+                            return;
+                        }
+                    }
+                    let mut c = if r.chance(1, 2) { punched_case(&mut r, &a, 0) } else { Case { pattern: a.clone(), instance: a.clone(), holes: vec![], nctx: 0, kind: "edited", ctx_defs: vec![] } };
+                    if r.chance(1, 2) {
+                        c.instance = edited;
+                    } else {
+                        c.instance = c.pattern.clone();
+                        c.pattern = edited;
+                    }
+                    c.kind = "edited-copy";
+                    run_case_inner(ctx, &c);
+                    return;
+                }
                 let mut c = punched_case(&mut r, &a, 0);
                 c.instance = b;
                 c.kind = "unrelated";
@@ -578,7 +625,7 @@ impl Prop for C12P {
 pub fn miri_cases(ctx: &mut Ctx, seed: u64, shard: u64, nshards: u64, count: u64) -> u64 {
     for i in 0..count {
         let idx = shard + i * nshards;
-        if let Some(c) = handmade(idx % 30) {
+        if let Some(c) = handmade(idx % 35) {
             run_case_inner(ctx, &c);
         }
         let mut r = Rng::for_case(seed, 79, idx);
